@@ -96,6 +96,8 @@ struct Builder
     double rel{1e-8};  // `eps`/`et` are in units of rel/2 * max(1, |v|)
     std::map<std::string, SPObj> cache;
     int counter{0};
+    std::size_t unit{0};          // unit being built (refs and the cache are per unit)
+    json const* objs{nullptr};    // its shared placed objects
 
     std::string fresh() { return "o" + std::to_string(counter++); }
 
@@ -183,7 +185,7 @@ struct Builder
 
     SPObj operator()(json const& o)
     {
-        std::string key = o.dump();
+        std::string key = std::to_string(unit) + ":" + o.dump();
         if (auto it = cache.find(key); it != cache.end())
             return it->second;
         SPObj r = this->make(o);
@@ -194,6 +196,8 @@ struct Builder
     SPObj make(json const& o)
     {
         std::string k = o.at("k").get<std::string>();
+        if (k == "ref")  // a placed object of this unit, shared between region definitions
+            return (*this)(objs->at(o.at("i").get<std::size_t>() - 1));
         if (k == "box")
             return std::make_shared<oi::BoxShape>(fresh(), box(o));
         if (k == "sphere")
@@ -298,13 +302,7 @@ make_unit(json const& scene, std::size_t ui, Builder& b, std::vector<std::shared
     json const& u = scene.at("units").at(ui);
     oi::UnitProto::Input inp;
     inp.label = u.at("name").get<std::string>();
-    inp.boundary.interior = b(u.at("boundary"));
-    inp.boundary.zorder = u.at("bz").get<std::string>() == "media" ? ZOrder::media : ZOrder::exterior;
-    if (auto bg = u.at("bg").get<std::string>(); !bg.empty())
-    {
-        inp.background.fill = GeoMaterialId{99};
-        inp.background.label = Label{bg};
-    }
+    // daughters first (recursion changes the builder's current unit)
     for (auto const& d : u.at("daughters"))
     {
         oi::UnitProto::DaughterInput di;
@@ -312,6 +310,15 @@ make_unit(json const& scene, std::size_t ui, Builder& b, std::vector<std::shared
         di.transform = b.transform(d.at("tf"));
         di.zorder = ZOrder::media;
         inp.daughters.push_back(std::move(di));
+    }
+    b.unit = ui;
+    b.objs = &u.at("objs");
+    inp.boundary.interior = b(u.at("boundary"));
+    inp.boundary.zorder = u.at("bz").get<std::string>() == "media" ? ZOrder::media : ZOrder::exterior;
+    if (auto bg = u.at("bg").get<std::string>(); !bg.empty())
+    {
+        inp.background.fill = GeoMaterialId{99};
+        inp.background.label = Label{bg};
     }
     GeoMaterialId::size_type mat = 0;
     for (auto const& m : u.at("materials"))
@@ -438,6 +445,7 @@ int run_probe(std::string const& scenes_path, std::string const& out_path)
         int n = g.at("n").get<int>();
         int step = g.at("step").get<int>();
         int lo[3] = {g.at("lo")[0].get<int>(), g.at("lo")[1].get<int>(), g.at("lo")[2].get<int>()};
+        double off[3] = {0.5 * g.at("off")[0].get<int>(), 0.5 * g.at("off")[1].get<int>(), 0.5 * g.at("off")[2].get<int>()};
         Names names;
         std::vector<json> slabs;
         for (int iz = 0; iz < n; ++iz)
@@ -447,7 +455,7 @@ int run_probe(std::string const& scenes_path, std::string const& out_path)
             for (int iy = 0; iy < n; ++iy)
                 for (int ix = 0; ix < n; ++ix)
                 {
-                    Real3 pos{double(lo[0] + ix * step), double(lo[1] + iy * step), double(lo[2] + iz * step)};
+                    Real3 pos{lo[0] + ix * step + off[0], lo[1] + iy * step + off[1], lo[2] + iz * step + off[2]};
                     nav.view() = GeoTrackInitializer{pos, Real3{0, 0, 1}};
                     lab.push_back(names(nav.label()));
                     if (nav.view().failed())
